@@ -12,6 +12,7 @@ import CBV.Lemmas.C14Renum
 import CBV.Lemmas.C14Box
 import CBV.Lemmas.C14Quad
 import CBV.Lemmas.C14Grid
+import CBV.Lemmas.C14Guard
 
 namespace CBV.C14
 open CBV
@@ -348,5 +349,205 @@ theorem T_C14_stretch_quad (L s : Rat) (hL : 0 < L) (hs : 1 ≤ s) :
 /-- non-vacuity / sanity: the model's signature of the 5:1:1 box -/
 example : (sigHex (box 5 1 1) (fun _ => none)).norm.aspect2 = 25 ∧
     (sigHex (box 1 5 1) (fun _ => none)).norm.aspect2 = 25 := by decide +kernel
+
+/-! ### the `VSMALL` guard under scaling: a bound instead of an exclusion -/
+
+/-- The exact signature of a hexahedron scaled by `k` (neighbour centres scaled with it), entry by entry: a triangle
+    entry `(n·c, |n|², |c|²)` becomes `(k³·n·c, k⁴·|n|², k²·|c|²)` (the normal is a cross product of two lengths), a
+    corner entry and every squared edge length are multiplied by `k²`. -/
+theorem T_C14_scale_entries (pts : List V3) (nb : Nat → Option V3) (k : Rat) :
+    sigHex (pts.map (V3.smul k)) (fun i => (nb i).map (V3.smul k)) =
+      ⟨(sigHex pts nb).tris.map (Tri.scale (k * k) k), (sigHex pts nb).corners.map (Tri.scale k k),
+       (sigHex pts nb).edges.map (fun x => (k * k) * x)⟩ :=
+  sigHexWith_smul_entries CBV.Gen.hexSideIdx CBV.Gen.hexAspectPairs pts nb k (fun s hs => (T_C14_tables.1.1 s hs).1)
+
+/-- **Scale invariance with the guard, as a bound.**  In any linearly ordered field (ℚ, ℝ), with `a = |n|`, `b = |c|`
+    (resp. the two side lengths at a corner, resp. longest / shortest edge) the norms of the *unscaled* cell and `e`
+    the guard (`VSMALL`): the guarded quantities `CellBase.quality` forms for the cell scaled by `k > 0` — whose
+    entries are those of `T_C14_scale_entries`, i.e. norms `k²a, kb`, `ka, kb`, `k·edge` — differ from the unguarded,
+    scale-free ones by at most
+    * `e / (k²·a)` for the cosine of a triangle normal against the centre-to-centre vector,
+    * `e / (k·a) + e / (k·b)` for the cosine of a corner angle,
+    * the relative amount `e / (k·min edge)` (and never upwards) for the aspect ratio,
+    so the dependence on size vanishes like `1/k` as the cell grows ("for sizes well above the guard"), and is as
+    large as the quantity itself when `k·min edge ≈ e`. -/
+theorem T_C14_guard_scale {K : Type} [Field K] [LinearOrder K] [IsStrictOrderedRing K]
+    (nc a b e k : K) (hk : 0 < k) (ha : 0 < a) (hb : 0 < b) (he : 0 ≤ e) (hcs : |nc| ≤ a * b) :
+    |gcos (k * k * k * nc) (k * k * a) (k * b) e - gcos nc a b 0| ≤ e / (k * k * a) ∧
+    |gcorner (k * k * nc) (k * a) (k * b) e - gcorner nc a b 0| ≤ e / (k * a) + e / (k * b) ∧
+    (∀ smax, 0 ≤ smax →
+      gaspect (k * smax) (k * a) e ≤ gaspect smax a 0 ∧
+      gaspect smax a 0 - gaspect (k * smax) (k * a) e ≤ gaspect smax a 0 * (e / (k * a))) := by
+  have hkk : 0 < k * k := mul_pos hk hk
+  refine ⟨?_, ?_, fun smax hmax => ?_⟩
+  · rw [gcos_scale nc a b e k hk]
+    exact (gcos_guard_bound nc a b (e / (k * k)) ha hb (div_nonneg he (le_of_lt hkk)) hcs).trans_eq (div_div _ _ _)
+  · rw [gcorner_scale nc a b e k hk]
+    exact (gcorner_guard_bound nc a b (e / k) ha hb (div_nonneg he (le_of_lt hk)) hcs).trans_eq
+      (by rw [div_div, div_div])
+  · rw [gaspect_scale smax a e k hk]
+    have h := gaspect_guard_bound smax a (e / k) hmax ha (div_nonneg he (le_of_lt hk))
+    rw [div_div] at h
+    exact h
+
+/-- non-vacuity, with the guard of the source (`VSMALL = 1e-6`, `T_C14_tables`): unit cube face (`|n| = 1/2`,
+    `|c| = 1/2`, `n·c = 1/4`), scaled by 100: the guarded cosine is within `2·10⁻¹⁰` of 1; scaled by 1/1000 it is
+    `1/3` — the same cell, three times as "non-orthogonal" -/
+example : |gcos (100 * 100 * 100 * (1 / 4 : Rat)) (100 * 100 * (1 / 2)) (100 * (1 / 2)) (1 / 1000000) - 1| ≤ 2 / 10000000000 ∧
+    gcos ((1 / 1000) * (1 / 1000) * (1 / 1000) * (1 / 4 : Rat)) ((1 / 1000) * (1 / 1000) * (1 / 2)) ((1 / 1000) * (1 / 2))
+      (1 / 1000000) = 1 / 3 := by
+  unfold gcos; norm_num [abs_le]
+
+/-! ### quadrilaterals: the exact domain of the renumbering clause -/
+
+/-- The domain, stated through the corner normals (no plane parametrisation): whenever the normals at two
+    consecutive corners, `(P1-P0)×(P3-P0)` and `(P2-P1)×(P0-P1)`, are *positive* multiples of one vector, moving the
+    first corner to the end only rotates the lists of the scale-free signature.  All four corner normals are
+    positive multiples of one vector exactly for the planar, strictly convex quadrilaterals (`T_C14_renumber_quad`). -/
+theorem T_C14_renumber_quad_normals (P0 P1 P2 P3 W : V3) (D0 D1 : Rat)
+    (h0 : V3.cross (P1 - P0) (P3 - P0) = V3.smul D0 W) (h1 : V3.cross (P2 - P1) (P0 - P1) = V3.smul D1 W)
+    (hpos : 0 < D1 * D0) (nb : Nat → Option V3) :
+    let s := sigQuad [P0, P1, P2, P3] nb
+    let s1 := sigQuad [P1, P2, P3, P0] (fun i => nb ((i + 1) % 4))
+    s1.norm.tris = rollL s.norm.tris ∧ s1.norm.corners = rollL s.norm.corners ∧ s1.norm.aspect2 = s.norm.aspect2 ∧
+      s1.norm.canon = s.norm.canon ∧ quality0 s1 = quality0 s := by
+  intro s s1
+  have r := sigQuad_roll P0 P1 P2 P3 W D0 D1 h0 h1 hpos nb
+  have q := quality0_of_roll s1 s r.1 r.2.1 r.2.2
+  exact ⟨r.1, r.2.1, r.2.2, q.1, q.2⟩
+
+theorem canon0_ne_of_mem (s s' : Sig0) (t : Tri0) (h1 : t ∈ s'.tris) (h2 : t ∉ s.tris) : s'.canon ≠ s.canon := by
+  intro h
+  have ht : s'.tris.mergeSort Tri0.le = s.tris.mergeSort Tri0.le := congrArg Sig0.tris h
+  have p1 := List.mergeSort_perm s'.tris Tri0.le
+  have p2 := List.mergeSort_perm s.tris Tri0.le
+  exact h2 (p2.mem_iff.mp (ht ▸ p1.mem_iff.mpr h1))
+
+/-- a planar quadrilateral with a reflex corner at `(1,1)` -/
+def concaveQuad : List V3 := [⟨0, 0, 0⟩, ⟨4, 0, 0⟩, ⟨1, 1, 0⟩, ⟨0, 4, 0⟩]
+/-- the unit square with one corner lifted out of the plane -/
+def twistedQuad : List V3 := [⟨0, 0, 0⟩, ⟨1, 0, 0⟩, ⟨1, 1, 1⟩, ⟨0, 1, 0⟩]
+
+/-- **Outside the domain the value depends on the numbering** (so the hypotheses of `T_C14_renumber_quad` cannot be
+    dropped): for a planar *concave* quadrilateral started at the reflex corner, and for a *non-planar* (twisted)
+    quadrilateral started at the next corner, the canonical scale-free signature differs from that of the original
+    numbering (the model's values: 5251 vs 182745 resp. 26.8 vs 34.6). -/
+theorem T_C14_renumber_quad_counterexamples :
+    (sigQuad (rollL (rollL concaveQuad)) (fun _ => none)).norm.canon ≠ (sigQuad concaveQuad (fun _ => none)).norm.canon ∧
+    (sigQuad (rollL twistedQuad) (fun _ => none)).norm.canon ≠ (sigQuad twistedQuad (fun _ => none)).norm.canon ∧
+    turn 1 1 0 4 4 0 * turn 4 0 1 1 0 0 < 0 := by
+  refine ⟨canon0_ne_of_mem _ _ ⟨1, 4 / 85⟩ (by decide +kernel) (by decide +kernel),
+    canon0_ne_of_mem _ _ ⟨1, 3 / 5⟩ (by decide +kernel) (by decide +kernel), by decide +kernel⟩
+
+/-! ### tie to the source text -/
+
+/-- The statement skeletons of the methods on the execution path of `CellBase.quality` and `GridBase.quality` /
+    `update`, regenerated from the *current* source with `ast` on every run (`cbv/tables/c14.py`; one string per
+    statement, `depth:text`, locals renamed a0, a1, …), are the ones the model (`hexSide`, `quadSide`, `c2c`, `G`,
+    `degenerate`, `cellQualities`, `junctionQuality`) was transcribed from: the neighbour-or-side-centre choice of
+    `c2c`, the clip before `arccos`, the three `q_scale` terms with their constants `(1.25, 0.35, 0.8)`,
+    `(1.5, 0.25, 0.15)`, `(3, 2.5, 3)`, `min edge + VSMALL`, the `RuntimeWarning → ValueError` conversion; `edge_pairs`
+    in `get_edge_lengths`; corners 0, 1, 3 of `QuadCell.normal`; `(i-1) % 4, i, (i+1) % 4` of the quad corner angle;
+    the `np.roll(±1)` and the `+ VSMALL` guards of the hexahedron's normals and corner sides.  A change of any of
+    these breaks this proof obligation. -/
+theorem T_C14_source_skeleton :
+    CBV.Gen.c14SrcQuality =
+      ["def quality(self)",
+       "0:a0 = 0",
+       "0:a1 = self.center",
+       "0:def q_scale(a2, a3, a4, a5)",
+       "1:return a4 * a2 ** (a3 * a5) - a4",
+       "0:try",
+       "1:warnings.filterwarnings('error')",
+       "1:for (a6, a7) in self.neighbours.items()",
+       "2:a8 = self.side_names.index(a6)",
+       "2:if a7 is None",
+       "3:a9 = a1 - self.get_side_center(a8)",
+       "2:else",
+       "3:a9 = a1 - a7.center",
+       "2:a10 = a9 / np.linalg.norm(a9)",
+       "2:a11 = 180 * np.arccos(np.clip(np.dot(self.get_side_normals(a8), a10), -1.0, 1.0)) / np.pi",
+       "2:a0 += np.sum(q_scale(1.25, 0.35, 0.8, a11))",
+       "2:a0 += np.sum(q_scale(1.5, 0.25, 0.15, abs(self.get_inner_angles(a8))))",
+       "1:a12 = self.get_edge_lengths()",
+       "1:a13 = max(a12)",
+       "1:a14 = min(a12) + VSMALL",
+       "1:a15 = np.log10(a13 / a14)",
+       "1:a0 += np.sum(q_scale(3, 2.5, 3, a15))",
+       "0:except RuntimeWarning",
+       "1:raise ValueError(f'Degenerate Cell: {self}') from RuntimeWarning",
+       "0:finally",
+       "1:warnings.resetwarnings()",
+       "0:return a0"] ∧
+    CBV.Gen.c14SrcEdgeLengths =
+      ["def get_edge_lengths(self)",
+       "0:a0 = self.points",
+       "0:return np.array([f.norm(a0[a1[1]] - a0[a1[0]]) for a1 in self.edge_pairs])"] ∧
+    CBV.Gen.c14SrcPoints =
+      ["def points(self)",
+       "0:return np.take(self.grid_points, self.indexes, axis=0)"] ∧
+    CBV.Gen.c14SrcCenter =
+      ["def center(self)",
+       "0:return np.average(self.points, axis=0)"] ∧
+    CBV.Gen.c14SrcSidePoints =
+      ["def get_side_points(self, a0)",
+       "0:return np.take(self.points, self.side_indexes[a0], axis=0)"] ∧
+    CBV.Gen.c14SrcSideCenter =
+      ["def get_side_center(self, a0)",
+       "0:return np.average(self.get_side_points(a0), axis=0)"] ∧
+    CBV.Gen.c14SrcQuadNormal =
+      ["def normal(self)",
+       "0:a0 = self.points",
+       "0:return np.cross(a0[1] - a0[0], a0[3] - a0[0])"] ∧
+    CBV.Gen.c14SrcQuadSideNormals =
+      ["def get_side_normals(self, a0)",
+       "0:a1 = self.get_side_points(a0)",
+       "0:a2 = a1[1] - a1[0]",
+       "0:a3 = np.cross(self.normal, a2)",
+       "0:return [f.unit_vector(a3)]"] ∧
+    CBV.Gen.c14SrcQuadInnerAngles =
+      ["def get_inner_angles(self, a0)",
+       "0:a1 = np.take(self.points, ((a0 - 1) % 4, a0, (a0 + 1) % 4), axis=0)",
+       "0:a2 = f.unit_vector(a1[2] - a1[1])",
+       "0:a3 = f.unit_vector(a1[0] - a1[1])",
+       "0:return np.expand_dims(180 * np.arccos(np.clip(np.dot(a2, a3), -1.0, 1.0)) / np.pi - 90, axis=0)"] ∧
+    CBV.Gen.c14SrcHexSideNormals =
+      ["def get_side_normals(self, a0)",
+       "0:a1 = self.get_side_center(a0)",
+       "0:a2 = self.get_side_points(a0)",
+       "0:a3 = a2 - a1",
+       "0:a4 = np.roll(a2, -1, axis=0) - a1",
+       "0:a5 = np.cross(a3, a4)",
+       "0:a6 = np.linalg.norm(a5, axis=1) + VSMALL",
+       "0:return a5 / a6[:, np.newaxis]"] ∧
+    CBV.Gen.c14SrcHexInnerAngles =
+      ["def get_inner_angles(self, a0)",
+       "0:a1 = self.get_side_points(a0)",
+       "0:a2 = np.roll(a1, -1, axis=0) - a1",
+       "0:a3 = np.linalg.norm(a2, axis=1) + VSMALL",
+       "0:a2 = a2 / a3[:, np.newaxis]",
+       "0:a4 = np.roll(a1, 1, axis=0) - a1",
+       "0:a5 = np.linalg.norm(a4, axis=1) + VSMALL",
+       "0:a4 = a4 / a5[:, np.newaxis]",
+       "0:a6 = np.sum(a2 * a4, axis=1)",
+       "0:return 180 * np.arccos(np.clip(a6, -1.0, 1.0)) / np.pi - 90"] ∧
+    CBV.Gen.c14SrcGridQuality =
+      ["def quality(self)",
+       "0:return sum([a0.quality for a0 in self.cells])"] ∧
+    CBV.Gen.c14SrcJunctionQuality =
+      ["def quality(self)",
+       "0:return sum([a0.quality for a0 in self.cells]) / len(self.cells)"] ∧
+    CBV.Gen.c14SrcGridUpdate =
+      ["def update(self, a0, a1)",
+       "0:self.points[a0] = a1",
+       "0:a2 = self.junctions[a0]",
+       "0:if len(a2.links) > 0",
+       "1:for a3 in a2.links",
+       "2:a3.link.leader = a1",
+       "2:a3.link.update()",
+       "2:self.points[a3.follower_index] = a3.link.follower",
+       "1:return self.quality",
+       "0:return a2.quality"] := by
+  decide
 
 end CBV.C14
